@@ -365,6 +365,9 @@ impl Exec {
             }
             Op::Merge => {
                 let h = self.h();
+                if std::env::var("VH_DEBUG_LOG").is_ok() {
+                    eprintln!("BEFORE MERGE: select {:?} stats {:?} keydir {:?}", h.verif_fileids_to_merge(), h.verif_dump().stats, h.verif_dump().keydir);
+                }
                 let r = catch(|| h.verif_merge()).map(|r| r.map_err(|e| e.to_string()));
                 (format!("{:?}", r), "Ok(Ok(()))".into())
             }
